@@ -135,7 +135,20 @@ def replay_table(args):
     return False, "matches"
 
 
-REPLAYERS = {"apply": replay_apply, "cell": replay_cell, "table": replay_table}
+def replay_explicit(args):
+    from yadism.input import compatibility
+
+    obs = {"TargetDIS": dict(args["target"])}
+    try:
+        compatibility.update_target(obs)
+    except Exception as e:  # noqa
+        return True, f"update_target raises {type(e).__name__}: {e}"
+    got = obs.get("TargetDIS")
+    ok = isinstance(got, dict) and all(k in got and float(got[k]) == float(v) for k, v in args["target"].items())
+    return (not ok), f"update_target turned {args['target']} into {got}"
+
+
+REPLAYERS = {"explicit": replay_explicit, "apply": replay_apply, "cell": replay_cell, "table": replay_table}
 
 
 def float_pairs_cell(args):
@@ -253,14 +266,15 @@ def run(chk, only=None):
                 chk.report(f"table:{name}", f"named target '{name}': {detail}", "table", dict(name=name))
             else:
                 chk.discharged += 1
-        # non-string targets are passed through untouched
-        obs = {"TargetDIS": {"Z": 3.0, "A": 7.0}}
-        compatibility.update_target(obs)
-        chk.obligations += 1
-        if obs == {"TargetDIS": {"Z": 3.0, "A": 7.0}}:
-            chk.discharged += 1
-        else:
-            chk.inconclusive_note("explicit (Z,A) target rewritten")
+        # explicit {Z, A} targets keep their (in general non-integer) values
+        for tgt in ({"Z": 3.0, "A": 7.0}, {"Z": 23.403, "A": 49.618}, {"A": 63.5, "Z": 29.5}, {"Z": 0.4, "A": 1.0}):
+            chk.obligations += 1
+            chk.evaluations += 1
+            bad, detail = replay_explicit(dict(target=tgt))
+            if bad:
+                chk.report("table:explicit", f"explicit target {tgt}: {detail}", "explicit", dict(target=tgt))
+            else:
+                chk.discharged += 1
     return chk.finish(
         explanation="Combiner.apply_isospin is executed on kernels with symbolic weights for every subset of up/down keys and z3 "
         "proves sum_p w'_p f_p == sum_p w_p f'_p for ALL real Z, A != 0, weights and formal PDFs; the real Combiner run for a "
